@@ -1069,3 +1069,50 @@ def live_at_terminator(body, l):
                 elif tgt not in seen_once:
                     work.append(tgt)
     return {bi for bi in range(n) if out_term[bi]}
+
+
+# ---------------------------------------------------------------- tightness of "is there room for this element" guards
+
+def bound_guards(body):
+    """guards of the form  len(buf) <cmp> (pos + size)  (either operand order) that decide whether the access
+    buf[.. pos + size] is made. -> [(switch block, comparison term, tight?)].
+    A guard is tight when the access is made in the boundary case  pos + size == len(buf)  - where it is in
+    bounds; a guard that rejects that case drops or refuses a valid last element."""
+    EQ_TRUE = {"Ge", "Le", "Eq"}
+    out = []
+    for sb in range(len(body.blocks)):
+        if sb in body.cleanup or body.blocks[sb]["t"]["k"] != "switch":
+            continue
+        term, outs = body.switch_info(sb)
+        neg, t = False, term
+        if t[0] == "un" and t[1] == "Not":
+            t, neg = t[2], True
+        if t[0] != "bin" or t[1] not in ("Gt", "Ge", "Lt", "Le"):
+            continue
+        x, y = t[2], t[3]
+
+        def is_len(z):
+            return z[0] == "call" and (z[1].endswith("::len") or z[1].endswith("::remaining")) and z[2]
+        if is_len(x) == is_len(y):
+            continue
+        L, A = (x, y) if is_len(x) else (y, x)
+        if A[0] != "bin" or A[1] not in ("Add", "AddUnchecked"):
+            continue
+        buf = L[2][0]
+        for bi, tc, p in body.calls():
+            if not p:
+                continue
+            ct = body.term_call(tc)
+            if not mir.has(ct, lambda z: z == buf):
+                continue
+            ends = [z for z in mir.walk(ct) if z[0] == "agg" and z[1].endswith(("ops::Range", "ops::RangeTo")) and z[3] and z[3][-1] == A]
+            if not ends:
+                continue
+            reach = [(tgt, m) for tgt, _, m in outs if isinstance(m, bool) and bi in body.reachable([tgt], cut_edges=body.back_edges())]
+            if len(reach) != 1:
+                continue
+            tgt, m = reach[0]
+            cont_truth = (m != neg)
+            out.append((sb, t, cont_truth == (t[1] in EQ_TRUE)))
+            break
+    return out
